@@ -1102,4 +1102,7 @@ func runC02R5(c *Ctx) {
 	// a request that returns with the handle-table (or any server) lock held is itself answered, but every later
 	// request needing the lock is not
 	checkLockBalance(c, "R6", func(fn *ssa.Function) bool { return isServerSide(fn) && outermost(fn).Package() == p.Sftp }, 12)
+
+	// ---------- R7 a handle request is answered with a reply legal for *it*, whatever the handle was opened for ----------
+	checkHandleRequestMatch(c, "R7")
 }
